@@ -215,7 +215,8 @@ class LiteralEvaluator:
 			else:
 				return float(arguments[0])
 		elif org_calls == 'str':
-			return f'"{str(arguments[0])}"'
+			# XXX 文字列は既に引用符付きのため、そのまま返却
+			return arguments[0] if isinstance(arguments[0], str) else f'"{str(arguments[0])}"'
 
 		raise Errors.OperationNotAllowed(node, calls, arguments)
 
